@@ -245,4 +245,37 @@ def run(repo='/repo', tier='quick'):
             alien.append(c[0])
     res.check(not alien and ncond >= 2, 'C10.f', 'htp_connp_tx_freed:loop-conditions', 'the %d loop conditions read only locals (counter, size, front slot)' % ncond,
               'the reclaim loop of htp_connp_tx_freed also depends on %s: leading NULL slots are left in place when that condition fails (in hybrid mode the response cursor never moves), the list never shrinks and every later removal walks the dead slots' % (S(alien[0])[:60] if alien else '?'), (alien[0]['loc'] if alien else ff.loc))
+    c10g(db, res)
     return res
+
+
+def c10g(db, res):
+    """A transaction normally gets one status line. After an interim 100 the response side goes back to the status-line state of
+    the SAME transaction and the line parser stores a second set of strings into the same fields. Everything the line stage
+    stores has to be released on the way round, or each interim response leaves its strings behind - memory that grows with
+    the number of messages and survives the automatic disposal of the transaction."""
+    res.rule('C10.g', 'the re-opened status-line stage releases what it overwrites: every transaction field that the response-line stage stores an allocation into (htp_connp_RES_LINE and the line parsers in the parse_response_line slot) is released in htp_connp_RES_LINE in front of the parse or on the 100-continue restart path')
+    line = db.get('htp_connp_RES_LINE')
+    parsers = sorted(db.slot_targets('htp_cfg_t', 'parse_response_line')) if hasattr(db, 'slot_targets') else []
+    if not parsers:
+        parsers = [n for n in db.fn if n.startswith('htp_parse_response_line_')]
+    stored = {}
+    for fn_ in [line] + [db.fn[p] for p in parsers if p in db.fn]:
+        for b, i, st in fn_.stmts():
+            for a in nodes(st, lambda y: y.get('k') == 'assign' and y['op'] == '=' and strip(y['l']).get('k') == 'member'):
+                l, r = strip(a['l']), strip(a['r'])
+                if l.get('rec') == 'htp_tx_t' and r is not None and r.get('k') == 'call' and (r.get('callee') or '').startswith(('bstr_dup', 'bstr_alloc')):
+                    stored.setdefault(l['field'], a)
+    freed = set()
+    restart = db.get('htp_connp_RES_BODY_DETERMINE')
+    for fn_ in (line, restart):
+        for b, i, c in fn_.calls('bstr_free'):
+            a0 = strip(c['args'][0])
+            if a0.get('k') == 'member' and a0.get('rec') == 'htp_tx_t':
+                freed.add(a0['field'])
+    n = 0
+    for fld, a in sorted(stored.items()):
+        n += 1
+        res.check(fld in freed, 'C10.g', 'response-line-stage:%s' % fld, 'released before it is stored again',
+                  'the response-line stage stores an allocation into tx->%s, and neither htp_connp_RES_LINE nor the 100-continue restart releases the previous one: every interim response leaves a string behind, the memory held by the connection grows with the number of messages' % fld, a['loc'])
+    res.floor('C10.g', 'strings stored by the response-line stage', n, 4)
